@@ -1218,9 +1218,13 @@ func (msg *Message) MarshalJSON() ([]byte, error) {
 	}
 	recipients := make([]jsonRecipient, 0, len(msg.Recipients))
 	for _, r := range msg.Recipients {
-		header, err := encodeHeader(r.header)
-		if err != nil {
-			return nil, err
+		var header map[string]any
+		if r.header != nil {
+			var err error
+			header, err = encodeHeader(r.header)
+			if err != nil {
+				return nil, err
+			}
 		}
 		recipients = append(recipients, jsonRecipient{
 			Header:       header,
@@ -1259,7 +1263,7 @@ type jsonJWE struct {
 
 type jsonRecipient struct {
 	EncryptedKey string         `json:"encrypted_key"`
-	Header       map[string]any `json:"header"`
+	Header       map[string]any `json:"header,omitempty"`
 }
 
 func ParseJSON(data []byte) (*Message, error) {
